@@ -131,7 +131,7 @@ func vGenApiLoc(name string, L int, shape int) Location {
 }
 
 //verif:harness prop=C04 quick=4 thorough=12 timeout=2400 merge=concrete
-//verif:bounds API level: gts.Rotate on sequences of length L in {2,3} (quick) / 1..6 (thorough; shape per length as listed in the harness table) with symbolic residues, every n in [-3L,3L] (enumerated), one feature (range/point/between | 2-part join | complemented range | 2-part order) with symbolic coordinates plus a full-length source: residues move to (k+n) mod L, the feature denotes the same residues, rotations compose additively and Rotate(-n) undoes Rotate(n)
+//verif:bounds API level: gts.Rotate on sequences of length L in {2,3} (quick) / 1..6 (thorough; shape per length as listed in the harness table) with symbolic residues, every n in [-3L,3L] (enumerated), one feature (range/point/between | 2-part join | complemented range | 2-part order) with symbolic coordinates, keyed gene or source, plus a full-length source: residues move to (k+n) mod L, the feature denotes the same residues, rotations compose additively and Rotate(-n) undoes Rotate(n)
 func VH_C04_rotate_api() {
 	// (L, shape) per shard; shape 0 atom (range/point/between), 1 2-part join, 2 complemented range, 3 2-part order
 	table := [][2]int{{2, 0}, {3, 0}, {3, 2}, {2, 1}, {1, 0}, {4, 0}, {4, 2}, {3, 1}, {2, 3}, {5, 0}, {3, 3}, {6, 2}}
@@ -142,7 +142,9 @@ func VH_C04_rotate_api() {
 	loc := vGenApiLoc("f", L, shape%4)
 	ff := FeatureSlice{}
 	ff = ff.Insert(Feature{"source", Range(0, L), vFeatTag(0)})
-	ff = ff.Insert(Feature{"gene", loc, vFeatTag(1)})
+	// the feature may itself be keyed source: a chimeric record has sources shorter than the sequence
+	fkey := []string{"gene", "source"}[vChoice("key", 2)]
+	ff = ff.Insert(Feature{fkey, loc, vFeatTag(1)})
 	seq := New(nil, ff, data)
 	n := vChoice("n", 6*L+1) - 3*L // every n in [-3L,3L] (concrete per path: Rotate slices by it)
 	out := Rotate(seq, n)
@@ -163,7 +165,7 @@ func VH_C04_rotate_api() {
 	var bs []vAtom
 	cnt := 0
 	for _, f := range out.Features() {
-		if f.Key == "gene" {
+		if f.Props[0][1] == "1" {
 			bs = vAtoms(f.Loc)
 			cnt++
 		} else {
@@ -190,12 +192,12 @@ func VH_C04_rotate_api() {
 	}
 	var t2, t1 []vAtom
 	for _, f := range two.Features() {
-		if f.Key == "gene" {
+		if f.Props[0][1] == "1" {
 			t2 = vAtoms(f.Loc)
 		}
 	}
 	for _, f := range one.Features() {
-		if f.Key == "gene" {
+		if f.Props[0][1] == "1" {
 			t1 = vAtoms(f.Loc)
 		}
 	}
